@@ -66,6 +66,20 @@ type Scenario struct {
 	Mode    []string
 }
 
+// Op returns the k-th real operation of thread t (phase separators skipped).
+func (s *Scenario) Op(t, k int) Op {
+	for _, o := range s.Threads[t] {
+		if o.Name == "/" {
+			continue
+		}
+		if k == 0 {
+			return o
+		}
+		k--
+	}
+	return Op{}
+}
+
 func (s *Scenario) OptInt(k string, def int) int {
 	if v, ok := s.Opts[k]; ok {
 		n, err := strconv.Atoi(v)
@@ -283,15 +297,50 @@ func runOnce(s *Scenario, c Component, n int, prefix []int, cut int) []vsched.Ch
 	if c.SoloBound != nil {
 		bound = c.SoloBound(s)
 	}
+	// phases: a "/" token in a thread's op list is a phase separator; no thread starts
+	// an operation of phase p+1 before every thread has finished its phase-p operations
+	// (a pure scheduling restriction: nothing is logged, the model sees nothing).
+	phase, phaseObj := 0, new(int)
+	remaining := map[int]int{}
+	for _, th := range s.Threads {
+		p := 0
+		for _, op := range th {
+			if op.Name == "/" {
+				p++
+			} else {
+				remaining[p]++
+			}
+		}
+	}
+	for remaining[phase] == 0 && len(remaining) > 0 && phase < 64 {
+		phase++
+	}
 	for t := range s.Threads {
 		t := t
 		bodies[t] = func() {
-			for k, op := range s.Threads[t] {
+			myPhase, k := 0, -1
+			for _, op := range s.Threads[t] {
+				if op.Name == "/" {
+					myPhase++
+					continue
+				}
+				k++
+				for phase < myPhase {
+					vsched.Block(phaseObj)
+				}
+				defer0 := func() {
+					remaining[myPhase]--
+					for remaining[phase] == 0 && phase < 64 {
+						phase++
+						vsched.Unblock(phaseObj)
+					}
+				}
 				vsched.Step() // invocation: a scheduling point and a logged access
 				start := len(vsched.Acc)
 				h.Events = append(h.Events, Event{T: t, K: k, Time: start})
 				res := inst.Exec(t, op)
 				h.Events = append(h.Events, Event{Ret: true, T: t, K: k, Res: res, Time: len(vsched.Acc)})
+				defer0()
 				if cut >= 0 && t == soloTarget && len(vsched.Acc) >= cut {
 					// the solo operation has returned: stop the run here
 					own := 0
